@@ -1449,7 +1449,8 @@ func call(n *node) {
 			for i, v := range values {
 				switch {
 				case variadic >= 0 && i >= variadic:
-					if v(f).Type() == vararg.Type() {
+					if hasVariadicArgs {
+						// The slice passed with an ellipsis is the variadic parameter.
 						vararg.Set(v(f))
 					} else {
 						vararg.Set(reflect.Append(vararg, v(f)))
